@@ -37,8 +37,12 @@ KERNEL_SAMPLE = {"quick": 12, "thorough": 60}
 KERNEL_MAXLEN = 1800
 TRUSTED_BASE = ["lib/props/vmgen.py result-line parsers; lib/props/c04.py loop-shape generator",
                 "lib/runner.py MODEL_SKIP: sessions tagged c04x are implementation-only"]
+# the measured loops run up to 1000 iterations through nested derived forms: beyond the model's instruction budget
+# (EVAL_FUEL) the model has no answer; the implementation's high-water marks are still judged by the oracle
+MODEL_NOFUEL_IS_NO_ANSWER = True
+
 MANIFEST = dict(
-    text="Coq theorems (coq/Props/C04.v) over the hand-written models of run.rs and compile.rs: TCALL with m new arguments rebuilds the frame on the SAME base with the caller's return information and sp = base + m + 3, through BOTH branches (equal and different argument count; the overlapping copy loops are proved not to clobber what they still have to read); ENTER pushes exactly one slot for plain lambdas and closures; applications in tail position end in TCALL and the tail flag is inherited by both branches of if (Props/C01.v); every R7RS tail sub-form of if/cond/case/and/or/when/unless/let/let*/letrec/named let/begin lands in tail position of what the GENERATED prelude's macros expand to and the model compiler emits (reflection over all depth-one contexts and an enumerated sub-product of depths two and three). a tail call to a VARIADIC procedure (TCALL, then VARARG collecting the surplus arguments into the rest list, then ENTER) leaves the frame on the same base with sp = base + L + 4 for L formals including the rest parameter, whatever the number of actual arguments and the history (C04_vararg_frame, C04_tcall_vararg_enter), so a variadic self-tail-call loop runs in constant stack; the same invariant is stated for fixed-arity callees (C04_tcall_enter_invariant). NOT proved: the contents of the rest list, the re-dispatch of apply/call-cc/eval onto the same TCALL (covered by the correspondence only), and the whole-loop induction (loop_space). Tied to /repo by generated loop shapes (context compositions x arities 0..4 x rest parameters x self/2/3-procedure recursion x direct/apply/call-cc/eval) measured at several n on implementation, extracted model and vm_compute, n=100000 on the implementation only, with the oracle: high-water mark independent of n, value equal to the non-tail twin's, the twin's mark grows.",
+    text="Coq theorems (coq/Props/C04.v) over the hand-written models of run.rs and compile.rs: TCALL with m new arguments rebuilds the frame on the SAME base with the caller's return information and sp = base + m + 3, through BOTH branches (equal and different argument count; the overlapping copy loops are proved not to clobber what they still have to read); ENTER pushes exactly one slot for plain lambdas and closures; applications in tail position end in TCALL and the tail flag is inherited by both branches of if (Props/C01.v); every R7RS tail sub-form of if/cond/case/and/or/when/unless/let/let*/letrec/named let/begin lands in tail position of what the GENERATED prelude's macros expand to and the model compiler emits (reflection over all depth-one contexts and an enumerated sub-product of depths two and three). a tail call to a VARIADIC procedure (TCALL, then VARARG collecting the surplus arguments into the rest list, then ENTER) leaves the frame on the same base with sp = base + L + 4 for L formals including the rest parameter, whatever the number of actual arguments and the history (C04_vararg_frame, C04_tcall_vararg_enter), so a variadic self-tail-call loop runs in constant stack; the same invariant is stated for fixed-arity callees (C04_tcall_enter_invariant). The whole-loop statement is proved for the closure fragment of C01 (C04_exec_bounded: the fragment correctness theorem re-proved with the maximum stack pointer carried through every case, where a call in tail position contributes the maximum of the callee's needs and not a frame per call): C04_loop_space - for EVERY n, every state of a self-tail-recursive loop driven by a chain of n closures has sp <= entry + 9; C04_loop_space_mutual - the same for two mutually tail-calling procedures; C04_nontail_grows - the non-tail twin reaches entry + 9 + 5n; the session versions start from the machine after load_builtins (computed: 9, 9, 9 and 14, 34, 259 for n = 1, 5, 50). NOT proved: loops driven by lists or numbers (the builtin hypothesis of the fragment theorem is refuted for cdr: pair fields may hold pointer cells), derived forms inside the induction, the contents of the rest list, the re-dispatch of apply/call-cc/eval onto the same TCALL (covered by the correspondence only). Tied to /repo by generated loop shapes (context compositions x arities 0..4 x rest parameters x self/2/3-procedure recursion x direct/apply/call-cc/eval) measured at several n on implementation, extracted model and vm_compute, n=100000 on the implementation only, with the oracle: high-water mark independent of n, value equal to the non-tail twin's, the twin's mark grows.",
     design="DESIGN.md section 5 C04",
     note="Trusted: Coq kernel; hand-written model tied by sampling correspondence ; harness single-step measurement of sp (read-only accessor, cfg marwood_verif); Python shape generator. Axioms: at most the four standard-library axioms of Coq's Reals inherited through Flocq's binary64 in the number type of the machine state.",
     technique="Rocq/Coq proof (frame invariant, induction on iterations, reflection over context compositions) + model/implementation correspondence check + cross-case oracle")
